@@ -123,6 +123,19 @@ def hand_universes():
         mod("lc::c", [proc("leaf", [op(2)])])],
         "kernel": [mod("#sys", [proc("k1", [op(11), it("caller")]), proc("k2", [op(12), X("xexec", "la::a", "v")])])],
         "progs": [prog([it("sys", n="k1")]), prog([X("xexec", "la::a", "u")]), prog([X("xexec", "lc::c", "leaf")])]})
+    # 15 private procedures that are targets of local call / procref / exec inside their module and are then imported from
+    # outside (exec / call / procref / re-export): importing a non-exported procedure is an undefined reference, whatever
+    # the module's own procedures did with it before
+    us.append({"mods": [
+        mod("la::a", [proc("helper", [op(1)], export=False), proc("pub1", [it("call", i=1)]), proc("pub2", [it("ref", i=1)]),
+                      proc("priv2", [op(4)], export=False), proc("pub3", [it("exec", i=4)])]),
+        mod("lb::b", [proc("x", [op(9)])], reexp=[("rh", "la::a", "helper")]),
+        mod("lc::c", [proc("y", [X("xcall", "la::a", "helper")])])],
+        "kernel": [],
+        "progs": [prog([X("xexec", "la::a", "pub1")]), prog([X("xexec", "la::a", "helper")]), prog([X("xcall", "la::a", "helper")]),
+                  prog([X("xref", "la::a", "helper")]), prog([X("xexec", "la::a", "pub2"), X("xcall", "la::a", "helper")]),
+                  prog([X("xexec", "lb::b", "rh")]), prog([X("xexec", "lb::b", "x")]), prog([X("xexec", "la::a", "priv2")]),
+                  prog([X("xexec", "la::a", "pub3"), X("xexec", "la::a", "priv2")]), prog([X("xexec", "lc::c", "y")])]})
     return us
 
 
